@@ -63,11 +63,16 @@ VERUS_UNITS = {
             (r'(InsertionEvent|MutationEvent|RemovalEvent|DespawnEvent)::(get|is_empty)$', ['C03', 'C04']),
             (r'ReactComponentId::id$', ['C03']),
             (r'check_readers_exclusive$', ['C03', 'C04']),
+            (r'(BroadcastEvent|EntityEvent)::(try_read|is_empty)$', ['C03', 'C04']),
+            (r'SystemEvent::take$', ['C03', 'C04']),
+            (r'(BroadcastEventData|EntityEventData)::read$', ['C03']),
+            (r'SystemEventData::take$', ['C04']),
         ],
         'negctl': [
             ('ensures r is Ok <==> (self.tracker.value.currently_reacting && self.tracker.value.reaction_type == EntityReactionType::Insertion(self.component_id.value.id)),',
              'ensures r is Ok <==> (self.tracker.value.currently_reacting && self.tracker.value.reaction_type == EntityReactionType::Mutation(self.component_id.value.id)),', 'InsertionEvent::get'),
             ('ensures r is Ok <==> self.tracker.value.currently_reacting,', 'ensures r is Ok,', 'DespawnEvent::get'),
+            ('&&& (present ==> final(self).data.items() == old(self).data.items().insert(e, SystemEventData { data: None }))', '&&& (present ==> final(self).data.items() == old(self).data.items())', 'SystemEvent::take'),
         ],
     },
     'cache': {
@@ -307,11 +312,11 @@ PROPS = {
         note=ENVNOTE + '; maps = finite partial maps (hashing not modelled); Vec as an assumed sequence stand-in in units cache_revoke / dispatch; tuple trigger bundles (macro-generated) not under contract',
         explanation='register_* x7, revoke_* x5, 4 schedule fns and the 11 trigger types proved unbounded (Verus, verbatim); EntityReactors and entity-event dispatch bounded (Kani); history lemma L3'),
     'C03': dict(category='other', design_ref='DESIGN.md 5/C03',
-        text='Contracts on the four access trackers, every event reader and the setup/cleanup functions of commands.rs: prepare = append, end clears (Verus, unbounded, verbatim); start(r) claims the oldest entry parked for r and leaves the rest in order, for parked lists of ANY length (Verus, verbatim; the `position` closure lifted by extraction rule 17; restated on the compiled code by Kani for every content of lists of length 0..3 quick / 0..5 thorough); Insertion/Mutation/Removal/DespawnEvent::get return the current reaction\'s source iff the tracker is reacting AND kind AND component type id are the reader\'s, generically in the component type (Verus, verbatim); Broadcast/EntityEvent readers and SystemEvent::take likewise for payload types u32/u16 (Kani, loop-free; a second take in the same run reads nothing); each command\'s apply parks its metadata in exactly the tracker(s) of its kind and hands the runner the (start, end) pair of that kind (Verus, verbatim); start_X/end_X start/stop exactly the trackers of kind X (Verus, verbatim, against the assumed World contract); cleanup_on_abort = setup then cleanup, unconditionally (Verus). Lemma L1 (Verus) lifts the start contract to: for any interleaving of parked events each run of a system receives the oldest metadata parked for it. The runner\'s replay of postponed commands is under contract too (Verus, closure body verbatim, lifted by extraction rule 14): an entry of the buffer that names the command that just finished is handed back to the runner with ITS OWN (command, setup, cleanup) triple - the pair that starts/ends the trackers of its kind - entries are visited front to back, the others are kept in order. Not covered: histories over nested trees, where metadata parked by different kinds of command interleave (known finding F3).',
+        text='Contracts on the four access trackers, every event reader and the setup/cleanup functions of commands.rs: prepare = append, end clears (Verus, unbounded, verbatim); start(r) claims the oldest entry parked for r and leaves the rest in order, for parked lists of ANY length (Verus, verbatim; the `position` closure lifted by extraction rule 17; restated on the compiled code by Kani for every content of lists of length 0..3 quick / 0..5 thorough); Insertion/Mutation/Removal/DespawnEvent::get return the current reaction\'s source iff the tracker is reacting AND kind AND component type id are the reader\'s, generically in the component type (Verus, verbatim); BroadcastEvent / EntityEvent::try_read return the payload stored on the data entity of the CURRENT event reaction iff the event tracker is reacting and that entity carries a payload of the reader\'s type, and SystemEvent::take hands its payload out at most once and never outside a system-event run - generically in the payload type (Verus, verbatim); Kani restates the three readers on the compiled code for payload types u32/u16 (loop-free); each command\'s apply parks its metadata in exactly the tracker(s) of its kind and hands the runner the (start, end) pair of that kind (Verus, verbatim); start_X/end_X start/stop exactly the trackers of kind X (Verus, verbatim, against the assumed World contract); cleanup_on_abort = setup then cleanup, unconditionally (Verus). Lemma L1 (Verus) lifts the start contract to: for any interleaving of parked events each run of a system receives the oldest metadata parked for it. The runner\'s replay of postponed commands is under contract too (Verus, closure body verbatim, lifted by extraction rule 14): an entry of the buffer that names the command that just finished is handed back to the runner with ITS OWN (command, setup, cleanup) triple - the pair that starts/ends the trackers of its kind - entries are visited front to back, the others are kept in order. Not covered: histories over nested trees, where metadata parked by different kinds of command interleave (known finding F3).',
         note=ENVNOTE + '; the cross-kind metadata mix-up under nested replay (F3) is a runner-level history that no function contract decides: listed in known_findings.json',
         explanation='tracker prepare/start/end/getters, entity-reaction and despawn readers, start_/end_* and cleanup_on_abort proved by Verus on verbatim text (unbounded); event readers complete@shape by Kani; per-system FIFO by lemma L1; runner not covered'),
     'C04': dict(category='other', design_ref='DESIGN.md 5/C04',
-        text='Kani discharges on the real run_initialized_system, for exclusive and non-exclusive systems with 0 and 2 deferred commands, that the cleanup runs exactly once, after the system body and before the first command the body deferred is applied; and on RawCallbackSystem / CallbackSystem::run_with_cleanup that this holds on every one of 2-3 consecutive runs and for the Empty callback. Verus proves on verbatim text that every end_X cleanup leaves its tracker(s) not reacting (and releases the payload per C05), that every reader returns Err when its tracker is not reacting, and that a system-event payload can be taken at most once (SystemEventData::take). Level other: the stub System used by the callback harnesses stands for Bevy\'s function/exclusive systems; positions in arbitrary trees and the anonymous closure of ReactCommands::once are not under contract.',
+        text='Kani discharges on the real run_initialized_system, for exclusive and non-exclusive systems with 0 and 2 deferred commands, that the cleanup runs exactly once, after the system body and before the first command the body deferred is applied; and on RawCallbackSystem / CallbackSystem::run_with_cleanup that this holds on every one of 2-3 consecutive runs and for the Empty callback. Verus proves on verbatim text that every end_X cleanup leaves its tracker(s) not reacting (and releases the payload per C05), that every reader - the four entity-reaction readers, DespawnEvent, BroadcastEvent, EntityEvent, SystemEvent - returns Err when its tracker is not reacting (generic in the component / payload type), and that a system-event payload can be taken at most once (SystemEvent::take leaves None behind). Level other: the stub System used by the callback harnesses stands for Bevy\'s function/exclusive systems; positions in arbitrary trees and the anonymous closure of ReactCommands::once are not under contract.',
         note=ENVNOTE + '; `unsafe` in run_initialized_system trusted; stub System = assumed contract of bevy System (run = run_unsafe + apply_deferred; exclusive run = body + flush)',
         explanation='cleanup placement complete per (exclusive?, #deferred) shape by Kani on the real function; end_* and readers proved by Verus; once() closure and tree positions not covered'),
     'C05': dict(category='other', design_ref='DESIGN.md 5/C05',
